@@ -302,6 +302,7 @@ func mkCase(S []PV, tags []string) fw.Case {
 		"tree.prunemap2 0", "tree.prunemap2 1", "tree.prunemap3 0", "tree.prunemap3 1"} {
 		script = append(script, fw.Join(op, s))
 	}
+	script = append(script, fw.Join("tree.domain 1", s))
 	wf := allWF(S)
 	if wf {
 		script = append(script, fw.Join("tree.flat2 1", s), fw.Join("tree.flat3 0", s),
@@ -355,6 +356,9 @@ func mkCase(S []PV, tags []string) fw.Case {
 	}
 	if buildMonitored(S) {
 		tags = append(tags, "build-monitored")
+	}
+	if theoremDomain(S, true) {
+		tags = append(tags, "in-theorem-domain")
 	}
 	return fw.Case{Script: script, Tags: tags, Nontrivial: nt}
 }
